@@ -132,6 +132,9 @@ def build_tree(tree):
     # a sibling of the root whose name starts with the root's name
     os.makedirs(os.path.join(base, "root_x"))
     open(os.path.join(base, "root_x", "secret.csv"), "w").write(table_text(779, 0))
+    # ... and one whose name differs from the root's only in letter case
+    os.makedirs(os.path.join(base, "ROOT"))
+    open(os.path.join(base, "ROOT", "secret.csv"), "w").write(table_text(780, 0))
     for fo in tree["folders"]:
         if fo:
             os.makedirs(os.path.join(root, fo), exist_ok=True)
@@ -185,6 +188,8 @@ def run_load(tree, base, root, cfg):
         kw["root_folder"] = root
     if cfg.get("start_pattern"):
         kw["file_name_start_pattern"] = cfg["start_pattern"]
+    if cfg.get("proto_stack"):
+        kw["additional_protocol_loaders"] = {}      # puts the protocol dispatcher into the loader stack
     code, exc = 0, None
     tables = []
     observe_io(events)
@@ -298,7 +303,7 @@ def g_xfs(nodes, outside):
         else:
             if payload is None:
                 # files not written by the generator (outside/): one table each
-                n = 779 if "/root_x/" in p else (777 if p.endswith("secret.csv") else 778)
+                n = 779 if "/root_x/" in p else (780 if "/ROOT/" in p else (777 if p.endswith("secret.csv") else 778))
                 items.append(g_pair(g_path(p), f"XFile [FBTable {g_nat(n)}]"))
             else:
                 items.append(g_pair(g_path(p), "XFile " + g_blocks(payload, outside)))
